@@ -292,7 +292,7 @@ Definition parenP (high : parser (option filter)) : parser (option filter) :=
 Definition notP (lowk : parser (option filter)) : parser (option filter) :=
   fun s => match strip_prefix (lit "NOT") s with
            | Some r => match ms1 r with
-                       | POk _ r' => pmap (option_map FNot) lowk r'
+                       | POk _ r' => pmap not_filter lowk r'
                        | _ => PFail
                        end
            | None => PFail
@@ -311,7 +311,7 @@ Fixpoint lowF (k : nat) : parser (option filter) :=
   end.
 End Low.
 
-Definition then_optF (word : String.string) (sub : parser (option filter)) (mk : list filter -> filter)
+Definition then_optF (word : String.string) (sub : parser (option filter)) (mk : bool)
   : parser (option filter) :=
   fun s => LET a, r <- sub s IN
            match (LET _u, r1 <- ms1 r IN LET _v, r2 <- ptag word r1 IN LET _w, r3 <- ms1 r2 IN sub r3) with
@@ -320,9 +320,9 @@ Definition then_optF (word : String.string) (sub : parser (option filter)) (mk :
            | PFatal => PFatal
            end.
 
-Definition midF (f : nat) : parser (option filter) := then_optF "AND" (lowF (p_filter f) (S f)) FAnd.
+Definition midF (f : nat) : parser (option filter) := then_optF "AND" (lowF (p_filter f) (S f)) false.
 
-Lemma p_filter_S (f : nat) : p_filter (S f) = then_optF "OR" (midF f) FOr.
+Lemma p_filter_S (f : nat) : p_filter (S f) = then_optF "OR" (midF f) true.
 Proof. reflexivity. Qed.
 
 (** the optional operator part does not fire on [k] *)
@@ -343,7 +343,7 @@ Lemma then_opt_some word sub mk s a b w r3 k :
   forallb is_space w = true -> w <> [] -> nsp_head r3 ->
   sub s = POk (Some a) (w ++ lit word ++ w ++ r3) ->
   sub r3 = POk (Some b) k ->
-  then_optF word sub mk s = POk (Some (mk [a; b])) k.
+  then_optF word sub mk s = POk (Some (if mk then FOr [a; b] else FAnd [a; b])) k.
 Proof.
   intros Hword Hw Hne Hr3 Hs1 Hs2. unfold then_optF. rewrite Hs1. cbn [pbind].
   rewrite ms1_ws by assumption. cbn [pbind]. rewrite Hword.
@@ -562,7 +562,7 @@ Proof.
     { intros f k Hf Hs Hand. rewrite (fpp_ctx o 2) in *. cbn [flevel Nat.ltb Nat.leb] in *.
       rewrite fpp_and in *. rewrite !app_length in Hf. rewrite <- !app_assoc.
       unfold midF.
-      apply then_opt_some with (w := po_ws1 o) (r3 := fpp o 3 b ++ k).
+      apply (then_opt_some "AND" _ false) with (w := po_ws1 o) (r3 := fpp o 3 b ++ k).
       - reflexivity.
       - apply ws1_sp.
       - apply ws1_ne.
@@ -576,7 +576,7 @@ Proof.
     assert (HH : Hprop (FOr [a; b])).
     { intros f k Hf Hs Hand Hor. rewrite fpp_or in *. rewrite !app_length in Hf. rewrite <- !app_assoc.
       rewrite p_filter_S.
-      apply then_opt_some with (w := po_ws1 o) (r3 := fpp o 2 b ++ k).
+      apply (then_opt_some "OR" _ true) with (w := po_ws1 o) (r3 := fpp o 2 b ++ k).
       - reflexivity.
       - apply ws1_sp.
       - apply ws1_ne.
@@ -735,7 +735,7 @@ Proof.
     assert (Hq : quoted_string (42%N :: rest) = PFail) by reflexivity. rewrite Hq.
     change (42%N :: rest) with ([42%N] ++ rest).
     rewrite take_while_kw; [reflexivity | reflexivity | apply search_stop_hstop, Hrest]. }
-  rewrite (then_opt_none "OR" _ FOr (42%N :: rest) None rest).
+  rewrite (then_opt_none "OR" _ true (42%N :: rest) None rest).
   - assert (Hlen : Nat.eqb (length (skip_spaces rest)) (S (length rest)) = false).
     { apply Nat.eqb_neq. pose proof (skip_spaces_len rest). lia. }
     rewrite Hlen. rewrite search_stop_end by assumption. reflexivity.
@@ -749,6 +749,32 @@ Example filter_examples :
   parse_search (lit "a b OR c | count") = POk (FAnd [k "a"; FOr [k "b"; k "c"]]) (lit "| count") /\
   parse_search (lit "a AND b OR NOT c") = POk (FAnd [FOr [FAnd [k "a"; k "b"]; FNot (k "c")]]) [] /\
   parse_search (lit "( a OR b ) AND ""x y""") = POk (FAnd [FAnd [FOr [k "a"; k "b"]; FKw KExact (lit "x y")]]) [].
+Proof. vm_compute. repeat split; reflexivity. Qed.
+
+(** * the parser's encoding of "every line" respects the Boolean reading of AND, OR and NOT
+    ([None] = the filter that selects every line; this is what fix 291b1f9 repaired) *)
+Definition osem (a : option filter) (line : str) : bool :=
+  match a with Some g => fmatches g line | None => true end.
+
+Theorem combine2_sem (is_or : bool) (a b : option filter) (line : str) :
+  osem (combine2 is_or a b) line = if is_or then osem a line || osem b line else osem a line && osem b line.
+Proof.
+  destruct a as [x|], b as [y|], is_or; cbn [combine2 osem fmatches];
+    rewrite ?orb_false_r, ?andb_true_r, ?orb_true_r; reflexivity.
+Qed.
+
+Theorem not_filter_sem (a : option filter) (line : str) :
+  osem (not_filter a) line = negb (osem a line).
+Proof. destruct a as [x|]; reflexivity. Qed.
+
+Example star_operands :
+  let k n := FKw KWild (lit n) in
+  parse_search (lit "* OR foo") = POk (FAnd []) [] /\
+  parse_search (lit "foo OR *") = POk (FAnd []) [] /\
+  parse_search (lit "NOT *") = POk (FAnd [FNot (FAnd [])]) [] /\
+  parse_search (lit "* AND foo") = POk (FAnd [k "foo"]) [] /\
+  parse_search (lit "(* OR a) AND NOT (b OR """")") = POk (FAnd [FNot (FAnd [])]) [] /\
+  forall line, fmatches (FAnd [FNot (FAnd [])]) line = false.
 Proof. vm_compute. repeat split; reflexivity. Qed.
 
 Print Assumptions filter_roundtrip.
